@@ -104,6 +104,13 @@ def resolve_syntatic_sugar(a: ast.AST) -> ast.AST:
                     f"Too many arguments for dataclass {a.func.value} - {ast.unparse(node)}."
                 )
 
+            if any(isinstance(arg, ast.Starred) for arg in a.args):
+                assert isinstance(a.func, ast.Constant)
+                raise ValueError(
+                    "Which fields a starred argument gives values to is only known when the"
+                    f" query runs: {a.func.value} - {ast.unparse(node)}."
+                )
+
             arg_values = a.args
             arg_names = [ast.Constant(value=n) for n in sig_arg_names[: len(arg_values)]]
             arg_lookup = {a.arg: a.value for a in a.keywords}
@@ -180,7 +187,22 @@ def resolve_syntatic_sugar(a: ast.AST) -> ast.AST:
                         for p in signature.parameters.values()
                         if p.default is not p.empty
                     }
-                    return self.convert_call_to_dict(a, node, sig_arg_names, sig_defaults)
+                    as_dict = self.convert_call_to_dict(a, node, sig_arg_names, sig_defaults)
+
+                    # A field the constructor takes no argument for (`field(init=False,
+                    # default=...)`) has its default value in every instance python makes.
+                    from dataclasses import MISSING, fields
+
+                    for f in fields(a.func.value):  # type: ignore
+                        if not f.init and f.default is not MISSING and isinstance(as_dict, ast.Dict):
+                            if not isinstance(f.default, (str, bytes, int, float, bool, complex)):
+                                raise ValueError(
+                                    f"Default value of field {f.name} can't be sent as a literal"
+                                    f" - {ast.unparse(node)}."
+                                )
+                            as_dict.keys.append(ast.Constant(value=f.name))
+                            as_dict.values.append(as_literal(f.default))
+                    return as_dict
 
                 elif hasattr(a.func.value, "_fields"):
                     # We have a named tuple. Turn it into a dictionary
